@@ -609,6 +609,55 @@ class SymReal:
         return 0.0
 
 
+def numden(t):
+    """Rational normal form of a z3 real term built from + - * / over arbitrary leaves: (numerator, denominator)."""
+    cache = {}
+
+    def go(a):
+        k = a.get_id()
+        if k in cache:
+            return cache[k]
+        r = _go(a)
+        cache[k] = r
+        return r
+
+    one = z3.RealVal(1)
+
+    def _go(a):
+        if not z3.is_app(a):
+            return a, one
+        kind = a.decl().kind()
+        ch = a.children()
+        if kind == z3.Z3_OP_DIV:
+            (n1, d1), (n2, d2) = go(ch[0]), go(ch[1])
+            return n1 * d2, d1 * n2
+        if kind == z3.Z3_OP_MUL:
+            n, d = one, one
+            for c in ch:
+                cn, cd = go(c)
+                n, d = n * cn, d * cd
+            return n, d
+        if kind in (z3.Z3_OP_ADD, z3.Z3_OP_SUB):
+            parts = [go(c) for c in ch]
+            if all(z3.eq(pd_, one) for _, pd_ in parts):
+                n = parts[0][0]
+                for pn, _ in parts[1:]:
+                    n = n + pn if kind == z3.Z3_OP_ADD else n - pn
+                return n, one
+            n, d = parts[0]
+            for pn, pd_ in parts[1:]:
+                n = n * pd_ + pn * d if kind == z3.Z3_OP_ADD else n * pd_ - pn * d
+                d = d * pd_
+            return n, d
+        if kind == z3.Z3_OP_UMINUS:
+            n, d = go(ch[0])
+            return -n, d
+        return a, one
+
+    n, d = go(t)
+    return n, d
+
+
 class SymNorm(SymReal):
     """Euclidean norm of a symbolic vector: comparisons are decided on the squares (no sqrt)."""
 
@@ -651,10 +700,13 @@ class SymNorm(SymReal):
         ot = to_term(o)
         if ot is None:
             return NotImplemented
+        # clear denominators: sq = n/d with d a product of (non-zero) denominators; compare n*d with o^2*d^2
+        n, d = numden(z3.simplify(self.sq))
+        lhs, rhs = (n * d, ot * ot * d * d) if not z3.eq(d, z3.RealVal(1)) else (self.sq, ot * ot)
         if less:  # norm < o  /  norm <= o
-            return SymBool(z3.And(ot > 0 if strict else ot >= 0, self.sq < ot * ot if strict else self.sq <= ot * ot))
+            return SymBool(z3.And(ot > 0 if strict else ot >= 0, lhs < rhs if strict else lhs <= rhs))
         # norm > o / norm >= o
-        return SymBool(z3.Or(ot < 0, self.sq > ot * ot if strict else self.sq >= ot * ot))
+        return SymBool(z3.Or(ot < 0, lhs > rhs if strict else lhs >= rhs))
 
     def __lt__(s, o):
         return s._ncmp(o, True, True)
